@@ -247,8 +247,9 @@ def run_case(case, R):
                 mb = model_of(sb)
                 names = all_names(ma, mb)
                 S = sign_matrix(elems_of(ma), elems_of(mb), names, g, r).reshape(())
-                check_ops(R, a, b, S, f"names {sa['n']} vs {sb['n']}: {sa['t']} ? {sb['t']}", tags + ["names"],
-                          sub=None)
+                unsorted = [t for t in (sa["n"], sb["n"]) if list(t) != sorted(t, key=name_index)]
+                check_ops(R, a, b, S, f"names {sa['n']} vs {sb['n']}: {sa['t']} ? {sb['t']}",
+                          tags + ["names"] + (["unsorted_names"] if unsorted else []), sub=None)
         elif k == "twins":
             seq = [sp for sp in space.twin_sequence() if not sp["s"]]
             for i, (sa, sb) in enumerate(zip(seq, seq[1:] + seq[:1])):
@@ -256,7 +257,8 @@ def run_case(case, R):
                 ma, mb = model_of(sa), model_of(sb)
                 names = all_names(ma, mb)
                 S = sign_matrix(elems_of(ma), elems_of(mb), names, g, r).reshape(())
-                check_ops(R, a, b, S, f"twins {i}: {sa['n']}{sa['t']} ? {sb['n']}{sb['t']}", tags + ["twins"])
+                unsorted = [t for t in (sa["n"], sb["n"]) if list(t) != sorted(t, key=name_index)]
+                check_ops(R, a, b, S, f"twins {i}: {sa['n']}{sa['t']} ? {sb['n']}{sb['t']}", tags + ["twins"] + (["unsorted_names"] if unsorted else []))
                 R.state(("twins", g, r, i))
         elif k == "shapes":
             names = ("q0", "q1")
